@@ -14,8 +14,8 @@ VERIF = runner.VERIF
 REPLAYS = os.environ.get("VERIF_REPLAY_DIR") or os.path.join(VERIF, "replays")
 
 
-def new_context(prop):
-    return None
+def new_context(prop, tier="quick"):
+    return {"scale": 2 if tier == "thorough" else 1}
 
 
 def sig_class(sig: str) -> str:
@@ -34,7 +34,7 @@ def run_plan_checked(plan):
 
 def run_seed(prop, seed, ctx):
     t0 = time.monotonic()
-    plan = fleetgen.gen_plan(seed)
+    plan = fleetgen.gen_plan(seed, (ctx or {}).get("scale", 1))
     res = run_plan_checked(plan)
     vs = []
     seen = set()
@@ -371,7 +371,7 @@ def evidence(prop, tier, base_seed, done, selftest_info, wall, t_runs, nviol, kn
                 maxdepth = max(maxdepth, a.get("depth", 0))
     samples = []
     for r in done[:2]:
-        plan = fleetgen.gen_plan(r["seed"])
+        plan = fleetgen.gen_plan(r["seed"], 2 if tier == "thorough" else 1)
         samples.append(
             {
                 "seed": r["seed"],
